@@ -299,6 +299,7 @@ func main() {
 	repo := flag.String("repo", "/repo", "repository root")
 	outLean := flag.String("lean", "", "Facts.lean to write")
 	outFp := flag.String("fp", "", "fingerprints JSON to write")
+	outKernels := flag.String("kernels", "", "Kernels.lean to write (translated integer kernels; \"-\" = stdout)")
 	flag.Parse()
 
 	cfg := &packages.Config{
@@ -816,6 +817,11 @@ func main() {
 		}
 	} else {
 		os.Stdout.Write(c.out.Bytes())
+	}
+
+	// translated integer kernels (kernels.go)
+	if *outKernels != "" {
+		c.emitKernels(*repo, *outKernels)
 	}
 
 	// fingerprints
